@@ -98,6 +98,12 @@ func register(m Metric) error {
 	registryLock.Lock()
 	defer registryLock.Unlock()
 
+	// Metrics may only be registered when the module is starting or started.
+	// Check this first: a refused metric must not end up in the registry.
+	if module.Status() < modules.StatusStarting {
+		return fmt.Errorf("registering metric %q too early", m.ID())
+	}
+
 	// Check if metric ID is already registered.
 	for _, registeredMetric := range registry {
 		if m.LabeledID() == registeredMetric.LabeledID() {
@@ -115,10 +121,6 @@ func register(m Metric) error {
 
 	// Set flag that first metric is now registered.
 	firstMetricRegistered = true
-
-	if module.Status() < modules.StatusStarting {
-		return fmt.Errorf("registering metric %q too early", m.ID())
-	}
 
 	return nil
 }
